@@ -101,3 +101,16 @@ Theorem C07_disclosure_encoding_invertible :
   forall ps, dec64 parse (enc64 ser ps) = DJson (JArr ps) /\ Split.contains Split.tilde (enc64 ser ps) = false.
 Proof. intros ser parse H ps. split; [apply dec64_enc64; exact H|apply enc64_tilde_free]. Qed.
 Print Assumptions C07_disclosure_encoding_invertible.
+
+(* the JSON half of the encoding: the compact printer (what serde_json writes for a Value) and a parser for it; every
+   value whose number literals consist of number characters and whose objects have strictly sorted keys - every
+   serde_json Value - is read back from its text, and so is a whole disclosure from its base64url string *)
+Require Import SDJ.JsonText SDJ.JsonTextProofs.
+Theorem C07_json_text_roundtrip : forall v, twf v -> JsonText.parse (JsonText.print v) = Some v.
+Proof. exact parse_print. Qed.
+Print Assumptions C07_json_text_roundtrip.
+
+Theorem C07_disclosure_string_roundtrip :
+  forall ps, Forall twf ps -> dec64 JsonText.parse (enc64 ser_json ps) = DJson (JArr ps).
+Proof. exact disclosure_text_roundtrip. Qed.
+Print Assumptions C07_disclosure_string_roundtrip.
